@@ -163,6 +163,11 @@ func NumberOfInducedPaths(g Graph, maxLength int) []int {
 			for len(toCheck) > 0 {
 				p, toCheck = toCheck[len(toCheck)-1], toCheck[:len(toCheck)-1]
 
+				if p.length >= maxLength {
+					//The extensions of p would be longer than maxLength.
+					continue
+				}
+
 				options := sortints.SetMinus(h.Neighbours(p.p[len(p.p)-1]), p.bannedNeighbours)
 
 				r[p.length+1] += len(options)
